@@ -51,6 +51,15 @@ def programs(tier):
         ]
     )
     yield ("loop-fn-waits-signal", loopw, {"x": 0}, dict(horizon=H_))
+    slow = T.prog(
+        [
+            T.fn("step", ["count"], ["count"], emit=["tick"], behav="env"),
+            T.route("gt", ["count"], ["step", "END"]),
+            T.fn("half", ["count"], ["hf"], behav="env"),
+            T.fn("obs", ["hf"], ["seen"], wait_for=["tick"], behav="env"),
+        ]
+    )
+    yield ("loop-waiter-reruns-less-often", slow, {"count": 0}, dict(horizon=H_))
     side = T.prog(
         [
             T.fn("step", ["count"], ["count"], emit=["tick"], behav="env"),
@@ -109,6 +118,13 @@ def signal_violations(prog, inputs, x):
             s = h.specs[c.nid]
             for o in list(s.get("outs", [])) + list(s.get("emit", [])):
                 productions.append((c.step, o, c))
+    called = {(c.nid, c.step) for c in calls}
+    for t in (t for t in h.steps if t.depth == 0 and t.post is not None):
+        for n in t.ready:
+            if (n, t.step) not in called and n in t.post.node_executions and n in h.specs:
+                s = h.specs[n]
+                for o in list(s.get("outs", [])) + list(s.get("emit", [])):
+                    productions.append((t.step, o, None))
     for w in (s for s in prog["nodes"] if s.get("wait_for")):
         starts = by_node.get(w["id"], [])
         prev = None
@@ -174,7 +190,7 @@ def signal_violations(prog, inputs, x):
                     if not stale(node):
                         continue
                     last = starts[-1]
-                    if not all(any(o == n and pc.done_seq > last.seq for (_, o, pc) in productions) for n in w["wait_for"]):
+                    if not all(any(o == n and ((pc is not None and pc.done_seq > last.seq) or (pc is None and st_ > last.step)) for (st_, o, pc) in productions) for n in w["wait_for"]):
                         continue
                 out.append(
                     (
@@ -219,10 +235,39 @@ def exact_loop_violations(runner, N):
     return out, prog
 
 
+def interrupt_resume_violations():
+    """An interrupt that produces a signal, driven through pause then resume: the waiter runs after the answer."""
+    out = []
+    prog = T.prog([T.interrupt("ask", ["e0"], ["ans"], emit=["sig"], behav="pause"), T.fn("w1", ["e0"], ["w0"], wait_for=["sig"]), T.fn("w2", ["ans"], ["v0"], wait_for=["sig"])])
+    p = T.set_async(prog, True)
+    ins = {"e0": ["prov", "e0"]}
+    h = H()
+    from ..dsl import build
+
+    g = build(p, h)
+    x1 = execute(p, ins, runner="async", h=h, graph=g)
+    if x1.status != "paused":
+        return [({"symptom": "interrupt-producer-did-not-pause"}, f"status {x1.status}")], prog
+    if any(c.nid in ("w1", "w2") for c in h.calls):
+        out.append(({"symptom": "waiter-started-before-production"}, "a waiter of the interrupt's signal ran before the interrupt was answered"))
+    n0 = len(h.calls)
+    x2 = execute(p, {**ins, "ans": ["resp", "ask", "ans"]}, runner="async", h=h, graph=g)
+    ran = [c.nid for c in h.calls[n0:]]
+    if x2.status != "completed" or ran.count("w1") != 1 or ran.count("w2") != 1 or "w0" not in x2.result.values:
+        out.append(({"symptom": "waiter-owed-at-quiescence", "waiter_kind": "fn", "producer": "resumed-interrupt"}, f"after the interrupt was answered its signal's waiters ran {ran} (status {x2.status}); each must run exactly once"))
+    return out, prog
+
+
 def run_shard(shard):
     tier, seed, i = shard
     acc = Acc()
     name, prog, inputs, meta = list(programs(tier))[i]
+    if i == 1:
+        vs, ip = interrupt_resume_violations()
+        acc.evaluations += 2
+        acc.key(("interrupt-resume",))
+        for sig, msg in vs:
+            acc.violation(sig, {"interrupt_resume": True, "program": ip}, msg)
     for runner in ("sync", "async"):
         if meta.get("async_only") and runner == "sync":
             continue
@@ -249,6 +294,8 @@ def coverage_extra(acc, tier, seed):
 
 
 def replay(rep):
+    if "interrupt_resume" in rep:
+        return [m for _, m in interrupt_resume_violations()[0]]
     if "exact_loop" in rep:
         return [m for _, m in exact_loop_violations(rep["runner"], rep["exact_loop"])[0]]
     prog, inputs, runner = rep["program"], rep["inputs"], rep["runner"]
